@@ -26,9 +26,9 @@ def run(chk):
     chk.assume_note('composition: confirm() is checked with votes()/total_votes() replaced by the sums that the '
                     'vote-kernel obligations prove those functions return')
     for ns in sorted(set(b[0] for b in bounds(chk.tier))):
-        vote_kernels(chk, it, ns)
+        chk.guard(vote_kernels, chk, it, ns)
     for ns, nk in bounds(chk.tier):
-        one(chk, it, ns, nk)
+        chk.guard(one, chk, it, ns, nk)
 
 
 def sym_stakes(ns, pc):
